@@ -39,6 +39,8 @@ CLAIMED["C11"] = ("hook-trace invariant monitor for MINRES (true residual of eve
                   "runtime monitoring: per-iteration hook trace invariants and dense matrix-root reference")
 CLAIMED["C13"] = ("write-watchpoint sanitizer: a TorchDispatchMode observes every ATen op executed by the library (also inside torch.jit.script helpers) during sequences of public operations and direct utility calls with caller tensors in hostile layouts (transposed views, slices of sentinel-filled storages, stride-0 expansions); any in-place write (schema is_write) into a caller-owned storage, any change of a caller tensor's version counter / metadata / bytes or of the sentinel padding, and any change of the matrix denoted by the pre-existing operator is a violation",
                   "runtime monitoring: torch-level write-watchpoint sanitizer (TorchDispatchMode) plus before/after snapshots")
+CLAIMED["C18"] = ("noise-interposer monitor: torch.randn is replaced (TorchFunctionMode) so that zero_mean_mvn_samples can be run once per unit vector of its flattened base noise (auxiliary draws such as random Lanczos start vectors come from a fixed seeded stream); the resulting matrix M of the map noise -> samples must be linear (a random noise vector reproduces M z), have output shape (k, *batch, n) and satisfy M M^T = I_k (x) blockdiag_b(A_b) to the accuracy of the root used (Lanczos roots, identified by hook events, against the orthogonal compression); the contour-integral variant is judged as A^1/2 z for the recorded noise",
+                  "runtime monitoring: torch-level noise interposer turning the sampler into an exactly decidable linear map")
 PENDING = {}
 def main():
     hooks_commits = []
